@@ -1773,7 +1773,7 @@ hdf_read_vars(XDR *xdrs, NC *handle, int32 vg)
                          *   equation.  I don't remember why its there
                          *   (4-Nov-93)
                          */
-                        vp->numrecs = data_count / vp->dsizes[0];
+                        vp->numrecs = (data_count + vp->dsizes[0] - 1) / vp->dsizes[0];
 
                         /*
                          * Deallocate the shape info as it will be recomputed
